@@ -17,7 +17,7 @@ import (
 // source of a match after a Shrink. The observers are the same as for every
 // other history.
 
-var scaleAll = []string{"manyseq", "longtail", "noiserun", "longmatch", "hugeshrink", "stutter", "dense", "tandem"}
+var scaleAll = []string{"manyseq", "longtail", "noiserun", "longmatch", "hugeshrink", "stutter", "dense", "tandem", "ntlburst", "trickle", "hugegrow", "hugeblock", "nilburst", "noisecopy"}
 
 func isSA(typ string) bool { return typ == "GSAP" || typ == "OSAP" }
 
@@ -206,6 +206,10 @@ func (h *histProp) genScale(r *rand.Rand, typ string, idx int64, o gen.Opts) PCa
 		var steps []RStep
 		for got := 0; got < n; got += piece {
 			steps = append(steps, RStep{N: 0}, RStep{N: piece})
+			if variant%2 == 1 && len(steps)%40 == 0 {
+				// and now and then nothing for 100-300 calls in a row
+				steps = append(steps, RStep{N: 100 + r.Intn(200), Err: 3})
+			}
 		}
 		ops := []POp{{K: "readfrom", A: 0, B: n, Steps: steps}}
 		ops = append(ops, parses(3, 0)...)
@@ -230,6 +234,144 @@ func (h *histProp) genScale(r *rand.Rand, typ string, idx int64, o gen.Opts) PCa
 		ops := []POp{{K: "write", A: 0, B: len(stream)}}
 		ops = append(ops, parses(8, 0)...)
 		pc = PCase{Cfg: c, Family: "dense", Stream: stream, Ops: ops}
+	case "ntlburst":
+		// hundreds of consecutive Parse calls with NoTrailingLiterals, each
+		// of which finds a sequence and leaves a literal tail
+		c := scaleCfg(r, typ, o, 6)
+		unit := 24 + r.Intn(16)
+		// (a block starts behind a token, holds the next token completely and
+		// ends in the filler behind it)
+		c.BlockSize = unit + 1 + r.Intn(unit/2-1)
+		c.BufferSize = 1 << 16
+		c.WindowSize = 1 << 16
+		c.ShrinkSize = 1 << 12
+		tok := gen.Family(r, "rand256", unit/2, c.Hint())
+		var stream []byte
+		for len(stream) < 40000 {
+			stream = append(stream, tok...)
+			stream = append(stream, gen.UniqueTrigrams(r, 40, unit-len(tok), tok...)...)
+		}
+		ops := []POp{{K: "write", A: 0, B: len(stream)}}
+		ops = append(ops, parses(300+r.Intn(200), ntl)...)
+		ops = append(ops, parses(20, 0, ntl)...)
+		pc = PCase{Cfg: c, Family: "units", Stream: stream, Ops: ops}
+	case "trickle":
+		// one burst that makes the buffer grow, then hundreds of rounds of a
+		// few bytes with a Shrink that discards something every time
+		c := scaleCfg(r, typ, o, 8)
+		c.BufferSize = []int{1 << 16, 1 << 18, 100000}[r.Intn(3)]
+		c.ShrinkSize = 8 + r.Intn(24)
+		c.BlockSize = 1 << 12
+		c.WindowSize = 1 << 15
+		burst := c.BufferSize*3/4 + r.Intn(c.BufferSize/4)
+		_, stream := gen.Bytes(r, burst+40000, c.Hint())
+		ops := []POp{{K: "write", A: 0, B: burst}}
+		ops = append(ops, parses(burst/c.BlockSize+2, 0)...)
+		ops = append(ops, POp{K: "shrink"})
+		for j, rounds := 0, 140+r.Intn(160); j < rounds; j++ {
+			ops = append(ops, POp{K: "write", A: 0, B: c.ShrinkSize + 8 + r.Intn(40)}, POp{K: "parse"}, POp{K: "shrink"})
+			if h.weights.Probe > 0 && j%16 == 15 {
+				ops = append(ops, POp{K: "probe", A: r.Intn(6), B: 1 + r.Intn(8), C: r.Intn(3)})
+			}
+		}
+		if h.weights.Probe > 0 {
+			for j := 0; j < 6; j++ {
+				ops = append(ops, POp{K: "probe", A: j, B: 1 + r.Intn(8), C: r.Intn(3)})
+			}
+		}
+		ops = append(ops, POp{K: "write", A: 0, B: 3000})
+		ops = append(ops, parses(3, 0)...)
+		pc = PCase{Cfg: c, Family: "mixed", Stream: stream, Ops: ops}
+	case "hugegrow":
+		// the buffer grows while it holds more than 4 MiB (lengths that are no
+		// multiples of 4 or 8)
+		c := scaleCfg(r, typ, o, 8)
+		c.BufferSize = []int{32 << 20, 24<<20 + 5, 16 << 20}[variant%3]
+		c.BlockSize = 1 << 20
+		c.WindowSize = 1 << 20
+		c.ShrinkSize = 1 << 16
+		n1 := 4<<20 + 1 + r.Intn(7)
+		if sa {
+			// (nothing is parsed before the end: the suffix array parsers
+			// only see the last piece)
+			c.BlockSize = 1 << 16
+		}
+		_, stream := gen.Bytes(r, 10<<20, c.Hint())
+		ops := []POp{{K: "write", A: 0, B: n1}, {K: "write", A: 0, B: 4<<20 + 300000 + r.Intn(7)}, {K: "readfrom", A: 0, B: 600000 + r.Intn(7)}, {K: "write", A: 0, B: 400001}}
+		if variant%2 == 1 {
+			ops[0], ops[1] = POp{K: "readfrom", A: 0, B: n1}, POp{K: "readfrom", A: 0, B: 4<<20 + 300000 + r.Intn(7), Steps: []RStep{{N: 100000}, {N: 4 << 20}}}
+		}
+		if h.weights.Probe > 0 {
+			for j := 0; j < 6; j++ {
+				ops = append(ops, POp{K: "probe", A: j, B: 1 + r.Intn(8), C: r.Intn(3)})
+			}
+		}
+		if !sa {
+			ops = append(ops, parses(11, 0)...)
+			ops = append(ops, POp{K: "shrink"})
+		} else {
+			ops = append(ops, POp{K: "parse", B: 1}, POp{K: "parse", B: 1}, POp{K: "parse", B: 1})
+		}
+		pc = PCase{Cfg: c, Family: "mixed", Stream: stream, Ops: ops}
+	case "hugeblock":
+		// blocks of 2-4 MiB with several megabytes unparsed, also skipped
+		// with Parse(nil)
+		c := scaleCfg(r, typ, o, 8)
+		c.BlockSize = []int{4 << 20, 2<<20 + 3, 3 << 20}[variant%3]
+		c.BufferSize = 10 << 20
+		c.WindowSize = 1 << 20
+		c.ShrinkSize = 1 << 16
+		n := 9 << 20
+		if sa {
+			c.BlockSize = 1<<20 + 1<<19
+			c.BufferSize = 4 << 20
+			n = 3 << 20
+			c.WindowSize = c.BufferSize
+		}
+		var stream []byte
+		if sa {
+			stream = gen.Family(r, "rand16", n, c.Hint())
+		} else {
+			_, stream = gen.Bytes(r, n, c.Hint())
+		}
+		ops := []POp{{K: "write", A: 0, B: n}}
+		if h.weights.ParseNil > 0 || variant%2 == 1 {
+			ops = append(ops, POp{K: "parse", B: 1})
+		}
+		ops = append(ops, POp{K: "parse"}, POp{K: "parse", B: 1}, POp{K: "parse", A: ntl}, POp{K: "parse"})
+		pc = PCase{Cfg: c, Family: "mixed", Stream: stream, Ops: ops}
+	case "nilburst":
+		// hundreds of blocks skipped with Parse(nil) after the first block,
+		// then blocks again (no Write, Shrink or Reset in between)
+		c := scaleCfg(r, typ, o, 8)
+		c.BlockSize = 512 + r.Intn(1024)
+		c.BufferSize = 1 << 19
+		c.WindowSize = 1 << 19
+		c.ShrinkSize = 1 << 12
+		n := 300000 + r.Intn(100000)
+		stream := gen.Family(r, []string{"text", "rand4", "lzsynth"}[r.Intn(3)], n, c.Hint())
+		ops := []POp{{K: "write", A: 0, B: n}, {K: "parse"}}
+		for j, k := 0, 130+r.Intn(120); j < k; j++ {
+			ops = append(ops, POp{K: "parse", B: 1})
+		}
+		ops = append(ops, parses(6, 0, ntl)...)
+		pc = PCase{Cfg: c, Family: "mixed", Stream: stream, Ops: ops}
+	case "noisecopy":
+		// more than 128 blocks in a row without any match, then data that
+		// repeats the beginning
+		c := scaleCfg(r, typ, o, 3)
+		c.BlockSize = 64 + r.Intn(64)
+		c.BufferSize = 1 << 17
+		c.WindowSize = 1 << 17
+		c.ShrinkSize = 1 << 12
+		nb := 130 + r.Intn(100)
+		noise := gen.UniqueTrigrams(r, 60+r.Intn(60), nb*c.BlockSize, 0)
+		stream := append([]byte{}, noise...)
+		stream = append(stream, noise[:3000+r.Intn(3000)]...)
+		stream = append(stream, gen.Family(r, "rand4", 2000, c.Hint())...)
+		ops := []POp{{K: "write", A: 0, B: len(stream)}}
+		ops = append(ops, parses(len(stream)/c.BlockSize+2, 0, 0, 0, ntl)...)
+		pc = PCase{Cfg: c, Family: "noisecopy", Stream: stream, Ops: ops}
 	case "tandem":
 		// X X and X X X with |X| of 15-45 kB over few letters, and source text
 		// repeated three times: the inputs that use up the work budget of the
